@@ -73,6 +73,7 @@ type G struct {
 	wake   chan struct{}
 	status gStatus
 	ready  func() bool
+	where  string // where the goroutine blocked last (for deadlock reports)
 }
 
 // Interp is one worker's interpreter state.
@@ -1301,6 +1302,7 @@ func (in *Interp) goStart(fr *frame, pos token.Pos, fn Value, args []Value) {
 func (in *Interp) handOff(g *G) {
 	next := in.pickNext(g)
 	if next == nil {
+		in.sink.count("deadlock-detail: "+in.blockedSummary(), 1)
 		in.endPath("deadlock", "all goroutines are blocked (a goroutine finished, none runnable)")
 	}
 	in.cur = next
@@ -1337,11 +1339,15 @@ func (in *Interp) block(ready func() bool) {
 		unsupported("blocking operation during initialisation")
 	}
 	g := in.cur
+	if in.lastFn != nil && in.lastInstr != nil {
+		g.where = in.lastFn.String() + " at " + in.posStr(in.lastInstr.Pos())
+	}
 	for !ready() {
 		g.ready = ready
 		g.status = gBlocked
 		next := in.pickNext(g)
 		if next == nil {
+			in.sink.count("deadlock-detail: "+in.blockedSummary(), 1)
 			in.endPath("deadlock", "all goroutines are blocked")
 		}
 		if next == g {
@@ -1356,6 +1362,16 @@ func (in *Interp) block(ready func() bool) {
 		in.cur = g
 	}
 	g.status = gRunning
+}
+
+func (in *Interp) blockedSummary() string {
+	var parts []string
+	for _, g := range in.p.gs {
+		if g.status == gBlocked {
+			parts = append(parts, fmt.Sprintf("g%d: %s", g.id, g.where))
+		}
+	}
+	return strings.Join(parts, " | ")
 }
 
 // yield lets other runnable goroutines run (used at synchronisation points).
